@@ -17,7 +17,10 @@ EXTENDS Lang, Json
 
 CONSTANTS
   Budget,          \* maximal number of tokens of the generated body
-  Template,        \* "dsp": the body is dsp's; "f": the body is f(x), dsp = f(1) + f(now)*100
+  Template,        \* "dsp": the body is dsp's; "f": the body is f(x), dsp = f(1) + f(now)*100;
+                   \* "clo": the body follows `let v = 1  let bump = |y| { v = v + y  v }` in dsp: a local that an
+                   \* open closure reads and assigns, read and assigned by the body as well (left-to-right evaluation
+                   \* of operands and arguments around calls that assign)
   UseInput,        \* dsp has one input channel bound to x
   Lits,            \* literal values
   Ops,             \* binary operators
@@ -81,6 +84,7 @@ Globals == IF GlobalSet = "stateful"
            ELSE <<>>
 
 RootSlot ==
+  IF Template = "clo" THEN Slot("N", {"v"}, {}, {"bump"}, {"v"}, "none", TRUE) ELSE
   IF Template = "dsp"
   THEN Slot("N", (IF UseInput THEN {"x"} ELSE {}) \cup GlobalNames, {}, {}, {}, "none", TRUE)
   ELSE Slot("N", {"x"} \cup GlobalNames, {}, {}, {}, "N", TRUE)
@@ -217,7 +221,11 @@ Closure(H) == H \cup (IF "nest" \in H THEN {"counter", "lag"} ELSE {})
 Prog ==
   LET H == Closure(UsedHelpers)
       hs == [f \in H |-> Prelude[f]]
-      gen == IF Template = "dsp"
+      gen == IF Template = "clo"
+             THEN [dsp |-> [ps |-> <<>>, self |-> FALSE,
+                            b |-> Let("v", Lit(1),
+                                      Let("bump", Lam(<<"y">>, Asg("v", Bin("+", Var("v"), Var("y")), Var("v"))), Body))]]
+             ELSE IF Template = "dsp"
              THEN [dsp |-> [ps |-> IF UseInput THEN <<"x">> ELSE <<>>, self |-> FALSE, b |-> Body]]
              ELSE [f |-> [ps |-> <<"x">>, self |-> UsesSelf(toks), b |-> Body],
                    dsp |-> [ps |-> IF UseInput THEN <<"x">> ELSE <<>>, self |-> FALSE,
